@@ -16,8 +16,8 @@ CHECK = {
         {"exe": "c16_tensor_hi", "flavour": "asan", "cases": (SWEEP_HI, SWEEP_HI), "procs": (1, 1), "args": ["--sub", "sweep-hi"], "subs": ["sweep-hi"]},
         # random: small shapes with random salts / gather lists / masks / real-valued integrals (30/31 resp. 30/41 of the
         # cases), shapes up to 1e5 elements (1/31 resp. 1/41), nano::stack (10/41)
-        {"exe": "c16_tensor", "flavour": "asan", "cases": (31000, 1200000), "procs": (3, 6), "subs": ["small", "large"]},
-        {"exe": "c16_tensor_hi", "flavour": "asan", "cases": (41000, 1000000), "procs": (3, 6), "subs": ["small-hi", "large-hi", "stack"]},
+        {"exe": "c16_tensor", "flavour": "asan", "cases": (31000, 620000), "procs": (3, 6), "subs": ["small", "large"]},
+        {"exe": "c16_tensor_hi", "flavour": "asan", "cases": (41000, 492000), "procs": (3, 6), "subs": ["small-hi", "large-hi", "stack"]},
     ],
     "min_nontrivial": (9900, 9900),
     "timeout": (900, 7200),
